@@ -429,9 +429,15 @@ func init() {
 			})
 			// thorough: the full accessor key (counters, indexes, log lengths, limit, message class), to closure,
 			// expanded by 8 child processes per role; plus the role-INconsistent alphabet to depth 3 (non-corruption oracles only)
-			mc.Register(prop, fmt.Sprintf("l1-closure-full-key/%s", RoleNames[r]), "thorough", func(x *mc.Cell) {
-				runClosure(x, closureOpts{role: r, roleConsist: true, fullKey: true, parallel: 8, maxStates: 60000, name: "closure-full-" + RoleNames[r]})
-			})
+			if prop == "C03" {
+				mc.Register(prop, fmt.Sprintf("l1-closure-full-key/%s", RoleNames[r]), "thorough", func(x *mc.Cell) {
+					runClosure(x, closureOpts{role: r, roleConsist: true, fullKey: true, parallel: 8, maxStates: 25000, name: "closure-full-" + RoleNames[r]})
+				})
+			} else {
+				mc.Register(prop, fmt.Sprintf("l1-full-key-depth5/%s", RoleNames[r]), "thorough", func(x *mc.Cell) {
+					runClosure(x, closureOpts{role: r, roleConsist: true, fullKey: true, parallel: 4, maxDepth: 5, name: "full-key-depth5-" + RoleNames[r]})
+				})
+			}
 			mc.Register(prop, fmt.Sprintf("l1-role-inconsistent/%s", RoleNames[r]), "thorough", func(x *mc.Cell) {
 				runClosure(x, closureOpts{role: r, roleConsist: false, fullKey: false, maxDepth: 5, name: "role-inconsistent-" + RoleNames[r]})
 			})
